@@ -1304,6 +1304,11 @@ fn run_history(ops: &[u8], tag: &str, gate: Option<Gate>, case_index: usize) -> 
     if !cx.dead() && cx.pos != cx.ops.len() {
         cx.fail("harness-history-not-finished", "interpreter stopped early".to_string());
     }
+    // leave the thread as it was found (catching disabled): helper processes run thousands of
+    // histories, and whatever a history leaves behind must not leak into the next one
+    if cx.model.enabled {
+        panic_catcher_disable();
+    }
     if let Some(g) = &cx.gate {
         let _ = g.done.send(());
     }
